@@ -609,6 +609,12 @@ def nontrivial(c, o):
     return len(c["X"]) >= 3 and c["arrival"] != sorted(c["arrival"])
 
 
+def pregen(ctx):
+    """tie (T): re-translate nodes/readouts/ridge.py + base.py of the tree under test into coq/gen/Gen_ridge.v"""
+    from vlib import gen
+    return gen.pregen_units(["ridge"])
+
+
 def correspondence(ctx):
     rng = ctx.rng("corr")
     cases = gen_cases(rng, ctx.n(32, 250), ctx.n(5, 30), ctx.n(3, 12), ctx.n(4, 24), ctx.thorough)
